@@ -257,7 +257,7 @@ func TestC11(t *testing.T) {
 		Gen:         c11Gen,
 		Run:         c11Run,
 		// reproduces the two known findings on every run (crash between taking a batch and the first block save)
-		Directed: []*sim.Scn{{Cfg: map[string]int64{"queue": 4}, Ops: []sim.Op{{K: "tx"}, {K: "reap"}, {K: "sleep", A: 1000}, {K: "produce"}, {K: "sleep", A: 1000}, {K: "produce", S: "*"}}}},
+		Directed:    []*sim.Scn{{Cfg: map[string]int64{"queue": 4}, Ops: []sim.Op{{K: "tx"}, {K: "reap"}, {K: "sleep", A: 1000}, {K: "produce"}, {K: "sleep", A: 1000}, {K: "produce", S: "*"}}}},
 		CfgMin:      map[string]int64{"queue": 1},
 		QuickBudget: 30 * time.Second, ThoroughBudget: 12 * time.Minute,
 	})
